@@ -102,7 +102,13 @@ func c15Run(t *testing.T, st *vstat.Stats, p c15Plan) (v *viol) {
 	if len(tr.Ops) == 0 {
 		return violf("harness", "trace has no operations")
 	}
-	rec := tr.Ops[p.Op%len(tr.Ops)]
+	var recs []opRecord
+	for _, r := range tr.Ops {
+		if r.ResultFile != nil {
+			recs = append(recs, r)
+		}
+	}
+	rec := recs[p.Op%len(recs)]
 	synctest.Test(t, func(t *testing.T) {
 		nd, dir, err := openSnapshot(tr, rec.SnapDir)
 		defer os.RemoveAll(dir)
@@ -409,6 +415,9 @@ func TestC15(t *testing.T) {
 				t.Fatalf("trace: %v", err)
 			}
 			for _, rec := range tr.Ops {
+				if rec.ResultFile == nil {
+					continue
+				}
 				for _, f := range [][]byte{rec.OpFile, rec.ResultFile} {
 					st.Eval()
 					var o types.Operation
